@@ -2,6 +2,7 @@ package main
 
 import (
 	"bytes"
+	"embed"
 	"fmt"
 	"os"
 	"path/filepath"
@@ -33,6 +34,13 @@ func init() {
 		return runFiles(a[0], names, contents, a[2], v)
 	}
 }
+
+// files compiled into the harness: embed.FS hands out byte slices without spare capacity, unlike os.ReadFile
+//
+//go:embed fixtures/*.tmpl
+var fixturesFS embed.FS
+
+var fixtureNames = []string{"empty.tmpl", "bom.tmpl", "bomonly.tmpl", "one.tmpl", "two.tmpl", "page.tmpl", "helper.tmpl", "bad.tmpl", "open.tmpl"}
 
 var fileNames = []string{"a.tmpl", "b.tmpl", "c.tmpl", "page.html", "x y.tmpl", "h\xc3\xa9.tmpl", "Z.tmpl", "0.tmpl", "noext", "q.tmpl.txt"}
 
@@ -89,6 +97,16 @@ func runFiles(via string, names, contents []string, execName string, data *Val) 
 			t, err = template.ParseFS(template.TrustedFSFromTrustedSource(root), names...)
 		case "tfs":
 			t, err = template.New(names[0]).ParseFS(template.TrustedFSFromTrustedSource(root), "*")
+		case "embed", "tembed":
+			var pats []string
+			for _, n := range names {
+				pats = append(pats, "fixtures/"+n)
+			}
+			if via == "embed" {
+				t, err = template.ParseFS(template.TrustedFSFromEmbed(fixturesFS), pats...)
+			} else {
+				t, err = template.New(names[0]).ParseFS(template.TrustedFSFromEmbed(fixturesFS), pats...)
+			}
 		case "zerofs":
 			// the zero TrustedFS wraps no file system: an error, whatever the working directory holds
 			cwd, _ := os.Getwd()
@@ -141,12 +159,16 @@ func genFiles(c *Ctx) {
 	data := &Val{Kind: "m", Keys: []string{"C", "L", "X"}, M: map[string]*Val{"X": {Kind: "s", S: "a\"b<&"}, "C": {Kind: "b", B: true},
 		"L": {Kind: "l", L: []*Val{{Kind: "i", I: 1}, {Kind: "i", I: 2}}}}}
 	for i := 0; i < c.n(400, 6000); i++ {
-		via := pick(c, []string{"files", "tfiles", "glob", "tglob", "fs", "tfs"})
+		via := pick(c, []string{"files", "tfiles", "glob", "tglob", "fs", "tfs", "embed", "tembed"})
 		n := 1 + c.rng.Intn(3)
-		perm := c.rng.Perm(len(fileNames))[:n]
+		pool := fileNames
+		if via == "embed" || via == "tembed" {
+			pool = fixtureNames
+		}
+		perm := c.rng.Perm(len(pool))[:n]
 		var names []string
 		for _, p := range perm {
-			names = append(names, fileNames[p])
+			names = append(names, pool[p])
 		}
 		if via == "glob" || via == "tglob" || via == "tfs" {
 			sort.Strings(names) // the order in which a pattern lists the files
@@ -158,6 +180,12 @@ func genFiles(c *Ctx) {
 		}
 		if bad {
 			contents[c.rng.Intn(n)] = pick(c, fileBadContents)
+		}
+		if via == "embed" || via == "tembed" {
+			for k, nm := range names {
+				b, _ := fixturesFS.ReadFile("fixtures/" + nm)
+				contents[k] = string(b)
+			}
 		}
 		execName := ""
 		if c.rng.Intn(2) == 0 {
